@@ -89,7 +89,14 @@ func (d *database[T, O]) startRotationTask() error {
 					defer d.rotationProcessOn.Store(false)
 					t := time.Unix(0, ts)
 					if rt != nil {
-						rt.run(taskCtx, t, d.logger)
+						// The event time comes from written data. A point stamped in
+						// the future must not expire segments that are still within
+						// the TTL by the clock.
+						retentionNow := t
+						if clockNow := d.segmentController.clock.Now(); retentionNow.After(clockNow) {
+							retentionNow = clockNow
+						}
+						rt.run(taskCtx, retentionNow, d.logger)
 					}
 					func() {
 						ss, err := d.segmentController.segments(taskCtx, true) // Ensure segments are open
